@@ -24,6 +24,7 @@ Definition sx_oline (o : oline) : sx :=
   | OAnyLines => SL [SS (s2l "anylines")]
   | OExec c => SL [SS (s2l "exec"); SS c]
   | OStop b => SL [SS (s2l "stop"); sx_bool b]
+  | ORaise e => SL [SS (s2l "raise"); SZ (exn_code e)]
   | OOM => SL [SS (s2l "oom")]
   end.
 
@@ -218,10 +219,26 @@ Definition e_splitargs (a : sx) : sx :=
   | _ => sx_err
   end.
 
+(* TerminalUI.run_until_stopped on a fresh controller: (prompts, input exhausted) *)
+Definition e_uiloop (a : sx) : sx :=
+  match a with
+  | SL cmds =>
+      match get_list get_s cmds with
+      | Some cs =>
+          let s0 := init_sess (MAlways true) (MAlways false) false true false in
+          let '(_, o, n, e) := run_until_stopped s0 cs in
+          if existsb (fun x => match x with OOM => true | _ => false end) o then SL [SS (s2l "oom")]
+          else SL [SZ (Z.of_nat n); sx_bool e]
+      | None => sx_err
+      end
+  | _ => sx_err
+  end.
+
 Definition entries (P : pdb) : list (str * (sx -> sx)) :=
   [ (s2l "n2l", e_n2l);
     (s2l "l2n", e_l2n);
     (s2l "mparse", e_mparse);
+    (s2l "uiloop", e_uiloop);
     (s2l "decode", e_decode);
     (s2l "render", e_render);
     (s2l "splitargs", e_splitargs);
